@@ -386,6 +386,72 @@ def fresh(ctx, flavours):
     return out
 
 
+def lk8(ctx, flavours):
+    """no operation waits for another thread: a loop that is left on the *success* outcome of an operation under a node lock and
+    repeated on its failure (retry until the other thread has caught up) has no bound of its own -- two such operations, or one
+    and an operation that has already taken the awaited entry away, spin forever.  Loops driven by an iterator / pop (left when
+    it is exhausted) and loops left on the failure outcome (drain until empty) are bounded by the data and not concerned."""
+    F, G = ctx.F, ctx.G()
+    out = []
+    STEP = re.compile(r'Iterator>::next$|Iterator::next$|::pop_front$|::pop_back$|::pop$|::next_element$|::next_back$')
+    for b in _bodies(ctx, flavours):
+        cfg = F.cfg(b)
+        ls = cfg.loops()
+        if not ls:
+            continue
+        pv = F.prov(b)
+        bad = []
+        n = 0
+        for h, body in sorted(ls.items()):
+            n += 1
+            exits = [(x, y) for x in sorted(body) for y in cfg.succ[x] if y not in body and x in cfg.reach]
+            driven = False
+            waits = []
+            for x, y in exits:
+                t = b['blocks'][x]['term']
+                if t['k'] != 'switch':
+                    continue
+                term = pv.of_operand(t['op'])
+                calls = term_calls(term)
+                vals = [v for v, tg in t['targets'] if tg == y]
+                other = (y == t['otherwise'])
+                if isinstance(term, tuple) and term and term[0] == 'discr' and any(STEP.search(c[1]) for c in term_calls(term[1])[:1]):
+                    driven = True
+                    continue
+                acq = any(c[1] in ACQ or (c[1] in F.bodies and G.may.get(c[1])) for c in calls)
+                if not acq:
+                    continue
+                pol = None
+                if isinstance(term, tuple) and term and term[0] == 'discr':
+                    names = None
+                    for st in b['blocks'][x]['stmts']:
+                        if st['k'] == 'assign' and st['rv']['k'] == 'discr' and st['rv'].get('variants'):
+                            names = st['rv']['variants']
+                    if names:
+                        taken = [names[v] for v in vals if v < len(names)]
+                        if other:
+                            taken += [nm for i, nm in enumerate(names) if i not in [v for v, _ in t['targets']]]
+                        if taken and all(nm in ('Some', 'Ok') for nm in taken):
+                            pol = 'success'
+                        elif taken and all(nm in ('None', 'Err') for nm in taken):
+                            pol = 'failure'
+                elif isinstance(term, tuple) and term and term[0] == 'call':
+                    last = term[1].split('::')[-1]
+                    truth = (vals != [0]) if vals else other and [v for v, _ in t['targets']] == [0]
+                    if vals == [0]:
+                        truth = False
+                    if last in ('is_err', 'is_none'):
+                        pol = 'failure' if truth else 'success'
+                    elif last in ('is_ok', 'is_some'):
+                        pol = 'success' if truth else 'failure'
+                if pol == 'success':
+                    waits.append('left at %s only when %s succeeds' % (F.where(b, x), ', '.join(sorted({c[1].split('::')[-1] for c in calls if c[1] not in ACQ and not c[1].startswith('std::result') and not c[1].startswith('std::option')})[:3]) or 'the locked operation'))
+            if waits and not driven:
+                bad.append('loop at %s %s and repeats it on failure: it waits for another thread' % (F.where(b, h), '; '.join(waits)))
+        out.append(Obl('LK8', b['q'], b['span'], 'no retry-until-success loop around a locked operation (%d loop(s))' % n, not bad, '; '.join(bad) if bad else 'every loop is driven by its data'))
+    return out
+
+
 def lk_try(ctx, flavours):
     """the outcome of an operation must not depend on contention: no try_read / try_write / try_lock (a failed try is reported to
     the caller as a data outcome -- 'no such edge' -- that no sequential order of the operations explains)"""
